@@ -32,6 +32,8 @@ type Env struct {
 	phiOverride map[*ssa.Phi]T
 	atBlock     *ssa.BasicBlock
 	calleeScope bool
+	atBlockEnd  bool // atBlock is a point at the END of that block (step clauses): its own definitions are visible
+	prevEnv     *Env // loop step clauses: prev(e) evaluates e at the head of the current iteration
 	qdepth      int
 	cbs         map[string]*CallbackSpec // callback kinds of the contract being evaluated (nil: the frame's)
 }
@@ -720,9 +722,15 @@ func (fr *frame) lookupLocal(name string, ev *Env) (T, bool) {
 		for i, in := range b.Instrs {
 			switch x := in.(type) {
 			case *ssa.Phi:
-				if x.Comment == name && !(at != nil && b == at) {
+				if x.Comment == name && !(at != nil && b == at && !ev.atBlockEnd) {
 					x := x
-					c := &cand{b, i, func() (T, bool) { v, ok := fr.vals[x]; return v, ok }}
+					c := &cand{b, i, func() (T, bool) {
+						if o, ok := ev.phiOverride[x]; ok {
+							return o, true
+						}
+						v, ok := fr.vals[x]
+						return v, ok
+					}}
 					if better(c) {
 						best = c
 					}
@@ -751,7 +759,7 @@ func (fr *frame) lookupLocal(name string, ev *Env) (T, bool) {
 					x := x
 					// at the header block itself only instructions before the terminator count,
 					// and a loop-header DebugRef is evaluated after the phis: skip when at == b
-					if at != nil && b == at {
+					if at != nil && b == at && !ev.atBlockEnd {
 						continue
 					}
 					c := &cand{b, i, func() (T, bool) {
@@ -1289,6 +1297,14 @@ func (ev *Env) builtinSpec(name string, argEs []Expr) (T, bool) {
 			}
 		}
 		return T{fmt.Sprintf("(select %s (iptr %s %d))", vc.heapGet(ev.st, "G_held"), base.S, index[0]), "Bool", boolT}, true
+	case "prev":
+		if ev.prevEnv == nil {
+			stale("prev() is only meaningful in a loop step clause")
+		}
+		pe := *ev.prevEnv
+		pe.vars = ev.vars // quantified variables stay visible
+		pe.qdepth = ev.qdepth
+		return pe.eval(argEs[0]), true
 	case "deref":
 		// deref(p): the value p points to
 		a := arg(0)
